@@ -97,15 +97,100 @@ class GuardCtx:
         objs = self.objs(c, len_facets)
         return obj_a in objs and obj_b in objs
 
-    def relating_guard_at(self, node, obj_a, obj_b, need_throw=False):
+    def relating_guard_at(self, node, obj_a, obj_b, need_throw=False, big=None):
+        """big: the object whose storage is indexed with a bound taken from the other one - a relating check that *definitely*
+        bounds the wrong side ( size(big) <= size(other), size(big) < ..., or only `!=` ) is no guard for that access"""
+        wrong = None
+        one_sided = {}
         for fact in self.fn.facts_at(node):
             if fact.belief:
                 continue
             if need_throw and not fact.rejects_by_throw:
                 continue
             if self.relating(fact.cond, fact.pol, obj_a, obj_b):
+                if big == "both":
+                    # both operands are indexed with the other one's length (plan tables and input): only equality - or a lower
+                    # and an upper check together - will do
+                    d = self.direction_of(fact.cond, fact.pol, obj_a, obj_b)
+                    if d in ("<", "<=", ">", ">=", "!="):
+                        one_sided[d] = fact
+                        if (one_sided.keys() & {"<", "<="}) and (one_sided.keys() & {">", ">="}):
+                            return fact
+                        wrong = fact
+                        continue
+                    return fact
+                if big is not None and self.wrong_direction(fact.cond, fact.pol, big, obj_b if big == obj_a else obj_a):
+                    wrong = fact
+                    continue
                 return fact
-        return self.helper_guard_before(node, obj_a, obj_b, need_throw)
+        g = self.helper_guard_before(node, obj_a, obj_b, need_throw)
+        if g is None and wrong is not None:
+            self.last_wrong_direction = wrong
+        return g
+
+    last_wrong_direction = None
+
+    def direction_of(self, cond, pol, a, b):
+        """the operator of (cond == pol) read as  size(a) op size(b), for a single comparison of plain size expressions with a on one
+        side only and b on the other only; else None"""
+        c = cond.strip()
+        while c.k == "UnaryOperator" and c.op == "!" and c.c:
+            c, pol = c.c[0].strip(), not pol
+        if c.k == "DeclRefExpr" and c.decl and c.decl.get("k") == "local" and c.tc == "bool":
+            from .ir import _single_def
+            d = _single_def(c)
+            return self.direction_of(d, pol, a, b) if d is not None else None
+        if c.k == "BinaryOperator" and c.op in ("&&", "||"):
+            return None
+        cmp_ = as_comparison(c)
+        if cmp_ is None:
+            return None
+        lhs, op, rhs = cmp_
+        if not pol:
+            op = NEG[op]
+        ol, orr = self.objs(lhs, ("size", "val")), self.objs(rhs, ("size", "val"))
+        if a in ol and b not in ol and b in orr and a not in orr:
+            pass
+        elif a in orr and b not in orr and b in ol and a not in ol:
+            op = FLIP[op]
+        else:
+            return None
+        for e in (lhs, rhs):
+            if e.strip_all().k == "BinaryOperator":
+                return None
+        return op
+
+    def wrong_direction(self, cond, pol, big, small):
+        """True only when (cond == pol) is a single comparison  L op R  with the sizes of `big` on one side only and of `small` on
+        the other side only, and op says big < small, big <= small or big != small.  Anything else: False (not known to be wrong)."""
+        c = cond.strip()
+        while c.k == "UnaryOperator" and c.op == "!" and c.c:
+            c, pol = c.c[0].strip(), not pol
+        if c.k == "DeclRefExpr" and c.decl and c.decl.get("k") == "local" and c.tc == "bool":
+            from .ir import _single_def
+            d = _single_def(c)
+            return self.wrong_direction(d, pol, big, small) if d is not None else False
+        if c.k == "BinaryOperator" and c.op in ("&&", "||"):
+            return False
+        cmp_ = as_comparison(c)
+        if cmp_ is None:
+            return False
+        lhs, op, rhs = cmp_
+        if not pol:
+            op = NEG[op]
+        ol, orr = self.objs(lhs, ("size", "val")), self.objs(rhs, ("size", "val"))
+        if big in ol and small not in ol and small in orr and big not in orr:
+            pass
+        elif big in orr and small not in orr and small in ol and big not in ol:
+            op = FLIP[op]
+        else:
+            return False
+        # plain size expressions only: an offset or a scale on either side changes what the comparison means
+        for e in (lhs, rhs):
+            e0 = e.strip_all()
+            if e0.k in ("BinaryOperator",):
+                return False
+        return op in ("<", "<=", "!=")
 
     # --- guards hoisted into helpers ----------------------------------------------------------
     def helper_guard_before(self, node, obj_a, obj_b, need_throw=False, depth=0):
